@@ -213,7 +213,7 @@ T_CONT_OTHER = _t("{% for i in xs limit: l1 %}a{{ i }}{% endfor %}|{% for j in x
 def c13_for_continue_chain(n: int, l1: int, o1: int, l2: int) -> bool:
     """
     pre: 0 <= n <= 4
-    pre: o1 >= 0 and l1 >= 0 and l2 >= 0
+    pre: o1 >= 0
     post: _
     """
     if excluded("c13_for_continue_chain", locals()):
@@ -483,7 +483,7 @@ ASSUMPTIONS = [
 ]
 OUTSIDE = [
     "collections longer than 4-5 items (loops unroll per length)",
-    "offset: continue after a loop with a negative offset or negative limit (reference behaviour is an artefact there)",
+    "offset: continue after a loop with a negative offset (the reference's continue position is an artefact there); negative limits are inside: the continue position must stay where the empty loop started",
     "nil limit: only absence of non-Liquid exceptions is asserted",
     "custom iterable drops",
 ]
